@@ -223,6 +223,25 @@ def gen_world(rng, profile="mixed", max_tasks=5):
                     "lookahead": lookahead, "allowed0": allowed0}}
 
 
+def gen_dispatch_world(rng):
+    """Retraction on, planner invoked when a parent P is SCHEDULED for `now` or earlier but not RUNNING yet, its VIRTUAL
+    child C within the lookahead (>= P's runtime), room for C beside P: the child must still wait for P's expected finish."""
+    now = rng.choice([10, 17])
+    rt_p = rng.choice([5, 12, 30, 50])
+    start_p = now - rng.choice([0, 0, 3])
+    flat = [{"res": [[0, 2]]}] if rng.random() < 0.5 else [{"res": [[0, 1]]}, {"res": [[0, 1]]}]
+    tasks = [{"id": 0, "graph": 0, "state": "S", "strats": [[rt_p, [[0, 1]]]], "deadline": now + rt_p + 200, "release": max(0, start_p - 2),
+              "prev": [1, 0, start_p]},
+             {"id": 1, "graph": 0, "state": "V", "strats": [[rng.choice([2, 5]), [[0, 1]]]], "deadline": now + rt_p + 300, "release": -1}]
+    graphs = [{"id": 0, "nodes": [0, 1], "edges": [[0, 1]]}]
+    if rng.random() < 0.5:
+        tasks.append({"id": 2, "graph": 1, "state": "R", "strats": [[4, [[0, 1]]]], "deadline": now + 400, "release": now})
+        graphs.append({"id": 1, "nodes": [2], "edges": []})
+    return {"now": now, "pools": [flat], "graphs": graphs, "tasks": tasks, "horizon": now + rt_p + 400,
+            "cfg": {"enforce": True, "retract": True, "release_tg": rng.random() < 0.3, "goal": "max_goodput",
+                    "lookahead": rt_p + rng.choice([0, 10, 50]), "allowed0": []}}
+
+
 def gen_reserve_world(rng):
     """One contended worker on which an earlier invocation reserved the whole capacity for task B (SCHEDULED for later,
     retract_schedules off), and a released task C that cannot run without meeting B's reservation unless B is moved."""
@@ -248,16 +267,17 @@ def gpairs(l):
     return glist(["(%s, %s)" % (gz(a), gz(b)) for a, b in l])
 
 
-def g_instance(w, r):
+def g_instance(w, r, extra=()):
     """The instance the planner saw: offered + previously placed tasks in the observed order, with the
-    observed state / release / deadline / remaining time of the real Task objects."""
+    observed state / release / deadline / remaining time of the real Task objects.  `extra`: further tasks of the
+    world appended for a monitor that judges the answer against the world description."""
     tds = {t["id"]: t for t in w["tasks"]}
     workers = [wd for pool in w["pools"] for wd in pool]
     # capacity by resource name, summed here over the worker's entries (first-occurrence order) — NOT taken from
     # Resources.get_unique_resource_types, so the live model's capacity constants are compared with the true totals
     gw = glist(["(mkWorker %s %s)" % (gz(i + 1), gpairs(list(totals(wd["res"]).items()))) for i, wd in enumerate(workers)])
     ts = []
-    for tid in r["order"]:
+    for tid in list(r["order"]) + list(extra):
         td = tds[tid]
         ob = r["state"][str(tid)]
         st = STATES[ob["state"]]
@@ -475,13 +495,14 @@ def run_sat_monitor(ctx, worlds, results, stream="M-sat"):
         ctx.broken.append({"kind": "monitor", "name": stream, "detail": str(e)[-800:]})
 
 
-def common_prelude(ctx, props_file, n_quick, n_thorough, profile="mixed", extra_reserve=0):
+def common_prelude(ctx, props_file, n_quick, n_thorough, profile="mixed", extra_reserve=0, extra_dispatch=0):
     ctx.fingerprint(FILES)
     ctx.translate(["Ilp"])
     built = ctx.build(props_file, deps=["Model/IlpModel.v"])
     n = n_quick if ctx.tier == "quick" else n_thorough
     worlds = [gen_world(ctx.rng, profile) for _ in range(n)]
     worlds += [gen_reserve_world(ctx.rng) for _ in range(extra_reserve if ctx.tier == "quick" else 10 * extra_reserve)]
+    worlds += [gen_dispatch_world(ctx.rng) for _ in range(extra_dispatch if ctx.tier == "quick" else 10 * extra_dispatch)]
     results = run_worlds(worlds)
     errs = [(w, r) for w, r in zip(worlds, results) if "error" in r]
     for w, r in errs[:2]:
